@@ -49,6 +49,22 @@ def register(reg, P):
     fam["dim_two_syms_floordiv"] = (lambda x: x.sum() + dimval((x.shape[0] + 3 * x.shape[1]) // 2).astype(jnp.float32), [(("B", "N"), F32)])
     fam["dim_two_inputs"] = (lambda x, y: x.sum() + y.sum() + dimval(x.shape[0] * 3 + y.shape[0]).astype(jnp.float32), [(("B", 2), F32), (("N", 2), F32)])
     fam["dim_sym_axis1"] = (lambda x: x.sum() + dimval(x.shape[1] * 2 + 1).astype(jnp.float32), [((2, "N"), F32)])
+    # reshapes that REORDER symbolic extents (only distinguishable when the symbols are bound differently)
+    fam["reshape_swap_syms"] = (lambda x: lax.reshape(x, (x.shape[1], x.shape[0], 4)) * 2.0, [(("B", "N", 4), F32)])
+    fam["reshape_swap_syms_jnp"] = (lambda x: x.reshape(x.shape[1], x.shape[0], 4) + 1.0, [(("B", "N", 4), F32)])
+    fam["reshape_rotate_syms"] = (lambda x: lax.reshape(x, (4, x.shape[0], x.shape[1])) * 2.0, [(("B", "N", 4), F32)])
+    fam["reshape_const_then_swap"] = (lambda x: lax.reshape(x, (2, x.shape[1], x.shape[0], 2)) * 2.0, [(("B", "N", 4), F32)])
+    fam["reshape_keep_then_merge"] = (lambda x: lax.reshape(x, (x.shape[0], x.shape[1] * 4)) * 2.0, [(("B", "N", 4), F32)])
+    fam["reshape_merge_then_keep"] = (lambda x: lax.reshape(x, (x.shape[0] * x.shape[1], 4)) * 2.0, [(("B", "N", 4), F32)])
+    fam["reshape_swap_last"] = (lambda x: lax.reshape(x, (4, x.shape[1], x.shape[0])) * 2.0, [(("B", "N", 4), F32)])
+    # broadcast_in_dim that BOTH adds rank and stretches a size-1 operand dim (intermediate Reshape)
+    fam["bcast_rank_and_stretch"] = (lambda x, y: jnp.broadcast_to(y, (x.shape[0], 3, 4)) + x, [(("B", 3, 4), F32), ((3, 1), F32)])
+    fam["bcast_rank_and_stretch_static"] = (lambda y: jnp.broadcast_to(y, (2, 3, 4)) * 2.0, [((3, 1), F32)])
+    fam["bcast_in_dim_explicit"] = (lambda y: lax.broadcast_in_dim(y, (5, 2, 6, 4), (1, 2, 3)) * 2.0, [((2, 1, 4), F32)])
+    fam["bcast_scalar_cast"] = (lambda x, s: x + jnp.broadcast_to(s.astype(jnp.float32), x.shape), [(("B", 3), F32), ((), np.int32)])
+    fam["rem_size1_bcast"] = (lambda x, y: lax.rem(x, y), [((1, 3), F32), (("B", 3), F32)])
+    fam["mod_size1_bcast"] = (lambda x, y: jnp.mod(x, y), [((1, 3), F32), (("B", 3), F32)])
+    fam["rem_size1_bcast_static"] = (lambda x, y: jnp.fmod(x, y), [((1, 3), F32), ((4, 3), F32)])
     fam["reshape_two_syms"] = (lambda x: x.reshape(2 * x.shape[1], 2 * x.shape[0]), [(("B", "N", 4), F32)])
     # dimension expressions that determine an OUTPUT SHAPE: decided for all bindings in shape mode
     fam["bcast_dim_sum"] = (lambda x, y: jnp.broadcast_to(y, (x.shape[0] + x.shape[1], 2)) + 1.0, [(("B", "N"), F32), ((1, 2), F32)])
